@@ -280,6 +280,11 @@ def run(ctx):
     offs12 = (0, -(1 << 12), 1 << 12, 1 << 17, -(1 << 13), -3 * (1 << 12), -(1 << 17))
     offs16 = (0, -(1 << 16), 1 << 16, 1 << 21, -(1 << 17), -3 * (1 << 16), -(1 << 21))
     shards = [(12, 0, 4096, offs12)] + [(16, lo, lo + 4096, offs16) for lo in range(0, 65536, 4096)]
+    if not ctx.quick:
+        # all 2^20 values at 20 bits and all 2^8 / 2^9 / 2^13 values at those widths
+        offs20 = (0, -(1 << 20), 1 << 20, -(1 << 21), -3 * (1 << 20))
+        shards += [(20, lo, lo + 32768, offs20) for lo in range(0, 1 << 20, 32768)]
+        shards += [(8, 0, 256, (0, -256, 256, -512, 1 << 13)), (9, 0, 512, (0, -512, 512, -1024)), (13, 0, 8192, (0, -8192, 8192, -16384))]
     part = pmap(formatter_shard, shards)
     part.merge(formatter_misc(None))
     ctx.space("formatter", part, t0, widths=[12, 16, 32, 1, 2, 4, 7, 8, 9, 13, 24, 31, 33, 64])
@@ -292,8 +297,8 @@ def run(ctx):
     ctx.space("memory-table", part, t0, populations=4096, orders=3)
     ctx.require("zero-valued-written-byte")
     t0 = time.time()
-    part = pmap(table_history_shard, [("riscv", 4 if ctx.quick else 5), ("toy", 4 if ctx.quick else 5)])
-    ctx.space("table-histories", part, t0, operations=11, depth=4 if ctx.quick else 5)
+    part = pmap(table_history_shard, [("riscv", 4 if ctx.quick else 6), ("toy", 4 if ctx.quick else 6)])
+    ctx.space("table-histories", part, t0, operations=11, depth=4 if ctx.quick else 6)
     ctx.require("table-looked-at-before-a-reset")
     t0 = time.time()
     part = pmap(register_shard, [0])
